@@ -5,7 +5,7 @@ import inspect
 
 from ..cfg import cfg_of
 from ..core import (
-    ancestors, assigns_to, body_walk, call_attr, call_name, calls_in, const_value, dotted, enclosing_stmt, handler_catches,
+    attrs_in, ancestors, assigns_to, body_walk, call_attr, call_name, calls_in, const_value, dotted, enclosing_stmt, handler_catches,
     in_block, is_const, kwarg, nodes_of_type, parent, stores_to, unparse, walk_local, names_in,
 )
 
@@ -296,8 +296,39 @@ def client_pairing(ctx):
                       "%s unregisters the folder although its deletion may have failed (or before it): a leftover folder is no longer tracked" % q.split(".")[-1])
             ctx.check(dotted(u.args[0]) == dotted(de[0].args[0]), u, "same folder")
     ctx.floor(n, 2, "folder unregister sites")
+    grf = cfg_of(rf)
+    at = [c for c in calls_in(rf) if call_name(c) == "atexit.register"]
     ct = ctx.repo.func(MR, cls_q + "._clean_temporary_resources")
     g = cfg_of(ct)
+    forgotten = set()
+    for c in calls_in(ct):
+        if call_attr(c) == "pop" and dotted(c.func.value) and dotted(c.func.value).startswith("self.") and c.args and dotted(c.args[0]) == "context_id":
+            forgotten.add(dotted(c.func.value))
+    for d_ in [x for x in ast.walk(ct) if isinstance(x, ast.Delete)]:
+        for t_ in d_.targets:
+            if isinstance(t_, ast.Subscript) and dotted(t_.slice) == "context_id":
+                forgotten.add(dotted(t_.value))
+    # a registration may be skipped only on the evidence of per-context state that a successful clean-up forgets
+    early = [r for r in nodes_of_type(rf, ast.Return) if not (grf.every_path_to(grf.nodes_of(r), grf.nodes_of_all(reg)) and grf.every_path_to(grf.nodes_of(r), grf.nodes_of_all(at)))]
+    ctx.check(bool(reg) and bool(at), reg[0] if reg else rf, "a registration registers the folder with the tracker and an atexit finalizer")
+    for r in early:
+        states = set()
+        for (_, t, pol) in grf.conditions_at(grf.nodes_of(r)):
+            states |= {a_ for a_ in attrs_in(t) if a_.startswith("self._")}
+        ok = bool(states) and states <= forgotten
+        ctx.check(ok, r, "registration is skipped only for a context whose entry in %s is still live (a successful clean-up forgets it)" % sorted(states),
+                  "register_folder_finalizer returns early on %s, but a successful clean-up does not remove the context from %s: a context registered again after a clean-up gets "
+                  "neither tracker registration nor atexit hook, and its folder leaks when the client dies" % (sorted(states) or "no per-context state", sorted(states - forgotten) or "it"))
+    rc = ctx.repo.func(MR, cls_q + ".register_new_context")
+    grc = cfg_of(rc)
+    for r in [r for r in nodes_of_type(rc, ast.Return)]:
+        states = set()
+        for (_, t, pol) in grc.conditions_at(grc.nodes_of(r)):
+            states |= {a_ for a_ in attrs_in(t) if a_.startswith("self._")}
+        ctx.check(bool(states) and states <= forgotten, r, "register_new_context skips only contexts still present in %s (forgotten by a successful clean-up)" % sorted(states),
+                  "register_new_context returns early on %s, which a successful clean-up does not forget" % sorted(states))
+    au = [c for c in calls_in(ct) if call_name(c) == "atexit.unregister"]
+    ctx.check(bool(au), au[0] if au else ct, "a successful clean-up removes the context's atexit hook")
     loops = [l for l in nodes_of_type(ct, ast.For) if isinstance(l.iter, ast.Call) and call_name(l.iter) == "os.listdir"]
     ctx.need(loops, "per-file loop not found in _clean_temporary_resources")
     lp = loops[0]
